@@ -37,7 +37,7 @@ func c16Property(rt *rapid.T, ev *evid.Rec) {
 	pool := gen.NewPool()
 	nd := rapid.IntRange(1, 3).Draw(rt, "ndecls")
 	var decls []*refmodel.Decl
-	shared, excluded, userIndex := false, false, false
+	shared, excluded, userIndex, columnOnly := false, false, false, false
 	for i := 0; i < nd; i++ {
 		do := gen.DeclOpts{Pool: pool, Name: fmt.Sprintf("ig%d", i+1), Table: fmt.Sprintf("t%d", i+1), AllowNotify: true,
 			Event: gen.EventOpts{Types: gen.TypeOpts{MaxDepth: 3, MaxTuple: 3, MaxFixed: 3}, MaxInputs: 4, SelProb: 50}}
@@ -84,7 +84,12 @@ func c16Property(rt *rapid.T, ev *evid.Rec) {
 					}
 				}
 				if !has {
-					d.Block = append(d.Block, refmodel.BlockField{Name: idc, Column: idc})
+					// declared with its block entry, or as a table column only (shovel adds the field)
+					if rapid.Bool().Draw(rt, "withblockentry") {
+						d.Block = append(d.Block, refmodel.BlockField{Name: idc, Column: idc})
+					} else {
+						columnOnly = true
+					}
 					d.Columns = append(d.Columns, refmodel.Column{Name: idc, Type: rapid.SampledFrom([]string{"numeric", "int", "int8"}).Draw(rt, "idtype")})
 				}
 			}
@@ -234,7 +239,7 @@ func c16Property(rt *rapid.T, ev *evid.Rec) {
 		collided = true
 	}
 	nontrivial := shared || preexisting
-	ev.Case(nontrivial, desc()+fmt.Sprint(rowsPer), fmt.Sprintf("shared=%v", shared), fmt.Sprintf("preexisting=%v", preexisting), fmt.Sprintf("userIndex=%v", userIndex), fmt.Sprintf("collisionChecked=%v", collided))
+	ev.Case(nontrivial, desc()+fmt.Sprint(rowsPer), fmt.Sprintf("shared=%v", shared), fmt.Sprintf("preexisting=%v", preexisting), fmt.Sprintf("userIndex=%v", userIndex), fmt.Sprintf("identityColumnWithoutBlockEntry=%v", columnOnly), fmt.Sprintf("collisionChecked=%v", collided))
 	if excluded {
 		ev.Excluded(1)
 	}
